@@ -251,6 +251,69 @@ func runExposure(c *run.Ctx, prop string) {
 		}
 		w.AddFeature("reorderedExpressions")
 	}
+	// an egress rule towards specific selectors on a NAMED port next to an entire-cluster egress rule on a number - the number the
+	// workload ITSELF declares under that name: the name belongs to the (hypothetical) destination, which may declare it elsewhere
+	if g.P(0.15) && len(w.Workloads) > 0 {
+		xi := g.Intn(len(w.Workloads))
+		x := &w.Workloads[xi]
+		name, num := "http", 8080
+		found := false
+		for _, cp := range x.Ports {
+			if cp.Name != "" && cp.Protocol() == "TCP" {
+				name, num, found = cp.Name, cp.Num, true
+			}
+		}
+		if !found {
+			x.Ports = append(x.Ports, world.CPort{Num: num, Name: name, Proto: "TCP"})
+			for _, cp := range x.Ports[:len(x.Ports)-1] {
+				if cp.Name == name || (cp.Num == num && cp.Protocol() == "TCP") {
+					x.Ports = x.Ports[:len(x.Ports)-1] // keep the declaration valid (unique names, unique number/protocol pairs)
+					name, num = "", 0
+				}
+			}
+		}
+		if name != "" {
+			np := world.NetPol{Ns: x.Ns, Name: "ownport", PodSel: *world.SelFor(g, x.Labels), HasTypes: true, PolicyTypes: []string{"Egress"}}
+			wide := world.NPRule{Peers: []world.NPPeer{{NsSel: &world.Sel{}}}, Ports: []world.NPPort{{Proto: "TCP", Port: num}}}
+			narrow := world.NPRule{Peers: []world.NPPeer{{NsSel: world.GenSel(g, w, false, 0)}}, Ports: []world.NPPort{{Proto: "TCP", Name: name}}}
+			if g.P(0.4) {
+				narrow.Peers[0].PodSel = world.GenSel(g, w, true, 0.2)
+			}
+			np.Egress = []world.NPRule{wide, narrow}
+			if g.P(0.5) {
+				np.Egress = []world.NPRule{narrow, wide}
+			}
+			w.NetPols = append(w.NetPols, np)
+			w.AddFeature("namedEgressPortDeclaredBySource")
+		}
+	}
+	// two DIFFERENT selectors whose requirements, written one after the other, read the same ("app" + "tier" / "apptier"): each needs
+	// its own representative peer
+	if g.P(0.15) && len(w.Workloads) > 0 {
+		x := rng.Pick(g, w.Workloads)
+		pairs := [][2]world.Sel{
+			{{ME: []world.Req{{Key: "app", Op: "Exists"}, {Key: "tier", Op: "Exists"}}}, {ME: []world.Req{{Key: "apptier", Op: "Exists"}}}},
+			{{ME: []world.Req{{Key: "env", Op: "Exists"}, {Key: "tier", Op: "NotIn", Vals: []string{"a"}}}}, {ME: []world.Req{{Key: "envtier", Op: "NotIn", Vals: []string{"a"}}}}},
+			{{ML: map[string]string{"app": "a"}, ME: []world.Req{{Key: "tier", Op: "Exists"}}}, {ML: map[string]string{"app": "atier"}}},
+		}
+		pair := pairs[g.Intn(len(pairs))]
+		if g.P(0.5) {
+			pair[0], pair[1] = pair[1], pair[0]
+		}
+		ingress := g.P(0.5)
+		for i := range pair {
+			np := world.NetPol{Ns: x.Ns, Name: fmt.Sprintf("concat%d", i), PodSel: *world.SelFor(g, x.Labels), HasTypes: true}
+			sel := pair[i]
+			rule := world.NPRule{Peers: []world.NPPeer{{PodSel: &sel}}, Ports: []world.NPPort{{Port: []int{8080, 9090}[i]}}}
+			if ingress {
+				np.Ingress, np.PolicyTypes = []world.NPRule{rule}, []string{"Ingress"}
+			} else {
+				np.Egress, np.PolicyTypes = []world.NPRule{rule}, []string{"Egress"}
+			}
+			w.NetPols = append(w.NetPols, np)
+		}
+		w.AddFeature("concatenationTwins")
+	}
 	r.Hash = w.Hash()
 	r.Feat(w.Features...)
 	// structural pattern of finding C06(a): a policy in a namespace with neither manifest nor workload, with a podSelector-only rule peer
